@@ -2,6 +2,7 @@
 //! Usage: iwe-verif <PROPERTY> --tier quick|thorough --seed N --model <driver> --out <json>
 mod act;
 mod dump;
+mod events;
 mod gen;
 mod hist;
 mod known;
